@@ -112,7 +112,9 @@ def _report(ses, rec, names, proto, fkind, akind, mode, what, public, want='ok')
         for xi, (idx, mask) in enumerate(((0, 1), (0, 0x20), (1, 1), (33, 1), (40, 0x80))):
             steps += [{'op': 'mutate', 'in': '$T', 'out': 'TX%d' % xi, 'ops': [{'payload_xor': [idx, mask]}]},
                       {'op': 'parse_core', 'proto': proto, 'token': '$TX%d' % xi, 'key': '$k_pk', 'footer': _pf, 'assertion': _pa, 'out': 'RX%d' % xi}]
-            extra_alts.append([{'var': 'RX%d' % xi, 'is': 'ok'}, {'var': 'T', 'is': 'ok'}])
+            # an index beyond the payload leaves the token as it is, and an edit inside a signature is another spelling question: only an edit that `differs` accepts counts
+            steps.append({'op': 'differs', 'a': '$T', 'b': '$TX%d' % xi, 'sig_len': SIGLEN.get(proto, 0) if public else 0, 'out': 'DX%d' % xi})
+            extra_alts.append([{'var': 'RX%d' % xi, 'is': 'ok'}, {'var': 'T', 'is': 'ok'}, {'var': 'DX%d' % xi, 'is': 'ok'}])
     msg = _txt(m.get('message'))
     if mode == 'S4' and want == 'ok' and m.get('seg') != m.get('b64F') and (m.get('P') == m.get('Pa')):
         # the payload is untouched and only the footer segment text differs from b64url(F): the model cannot name a concrete non-canonical
